@@ -16,9 +16,18 @@ KANI = {
     'c17_gap_cover': {},
 }
 
+# unit -> native witness search run when an obligation of that unit fails on changed code: (replay case, args)
+WITNESS_SEARCH = {
+    'nodup_fringe': ('nodup_fringe_fuzz', ['$SEED', 40000]),
+    'simple_fringe': ('simple_fringe_fuzz', ['$SEED', 40000]),
+    'cache_api': ('cache_fuzz', ['$SEED', 40000]),
+    'dominance_checker': ('dominance_fuzz', ['$SEED', 60000]),
+}
+
 PROPS = {
     'C01': {
         'units': ['seq_solver'],
+        'dep_units': ['nodup_fringe', 'simple_fringe', 'ranking'],
         'kani': [],
         'technique': 'Verus: search invariant + optimality theorem on the extracted real text of SequentialSolver, against trait-level contracts of diagram/fringe/cache',
         'level_text': 'Deductive proof (Verus, unbounded) about the real text of custom/initialize/get_workload/process_one_node/maybe_update_best/enqueue_cutset/abort_search/maximize: an invariant (fringe content exact and bound-valid, open_by_layer == per-depth fringe counts, lower bound attained, optimum covered by a held sub-problem) is established and preserved, and maximize() ensures is_exact ==> reported value == optimum of the abstract DP and no value <==> infeasible. Holds for every Problem, every DecisionDiagram/Fringe/WidthHeuristic/ranking satisfying the trait contracts, non-caching Cache.',
@@ -39,6 +48,7 @@ PROPS = {
     },
     'C05': {
         'units': ['seq_solver'],
+        'dep_units': ['nodup_fringe', 'simple_fringe', 'ranking'],
         'kani': [],
         'technique': 'Verus: Err arm of process_one_node / abort_search / maximize contracts: best_lb <= optimum <= best_ub at every possible cut-off point',
         'level_text': 'Deductive proof (Verus): compile may fail at ANY call (Err arm), which over-approximates "cutoff fires at an arbitrary poll"; in that arm and after abort_search the lower bound is attained by a feasible solution and optimum <= best_ub; is_exact is reported iff no abort happened and then implies proved optimality.',
@@ -48,6 +58,7 @@ PROPS = {
     },
     'C14': {
         'units': ['seq_solver'],
+        'dep_units': ['nodup_fringe', 'simple_fringe', 'ranking'],
         'kani': [],
         'technique': 'Verus: set_primal contract + search invariant holds from any feasible primal, on the extracted real text',
         'level_text': 'Deductive proof (Verus): set_primal replaces the incumbent iff value > best_lb; given a primal that is the value of a feasible solution the invariant of C01 holds after set_primal + initialize, hence maximize() ends with best_lb >= primal, is_exact ==> best_lb == optimum (= max(primal, optimum) since primal <= optimum).',
@@ -57,12 +68,54 @@ PROPS = {
     },
     'C19': {
         'units': ['seq_solver'],
+        'dep_units': ['nodup_fringe', 'simple_fringe', 'ranking'],
         'kani': [],
         'technique': 'Verus: monotonicity obligations on get_workload / process_one_node / enqueue_cutset of the extracted real text',
         'level_text': 'Deductive proof (Verus): best_lb never decreases (maybe_update_best, set_primal, process_one_node), the bound in force at successive compile calls never increases (get_workload: popped ub == new best_ub <= old best_ub, from the fringe contract and the invariant "every held ub <= best_ub" which enqueue_cutset maintains through ub.min), and at every exposed point best_lb <= optimum <= best_ub.',
         'level_note': 'Monotonicity in the poll index additionally uses prefix determinism of the solver (no randomness on the code path), an assumption. "Eventually exact" needs termination, not proved.',
         'not_decided': ['termination ("from some index on the run is exact")', 'prefix determinism is assumed, not proved'],
         'assumptions': ['a run cut at poll k is a prefix of the run cut at poll k+1 (deterministic code path)'],
+    },
+    'C10': {
+        'units': ['dominance_cmp', 'dominance_checker'],
+        'dep_units': [],
+        'kani': [],
+        'technique': 'Verus: Dominance::partial_cmp / cmp default methods (real loops, any number of dimensions) and SimpleDominanceChecker::is_dominated_or_insert against a Pareto-front view',
+        'level_text': 'Deductive proof (Verus, unbounded in the number of dimensions and in the query history): partial_cmp returns Greater iff a >= b in every coordinate (and value when used) with one strict, Less symmetrically, Equal iff all equal, None iff incomparable, only_val_diff exact; cmp is the first-difference lexicographic order (value first) and ranks a dominating state first; is_dominated_or_insert: dominated iff a recorded entry with the same key strictly dominates, then store unchanged and threshold == min over dominators (other.value - 1 when only the value differs), >= presented value and sound; otherwise kept(l0).push(new) with exactly the dominated-or-equal entries dropped; other keys/layers untouched; antichain invariant; lemma_front_history: for any query sequence the list is the Pareto front of everything recorded.',
+        'level_note': 'Trusted: DashMap replaced by std HashMap (R9: sequential map semantics + per-key shard-lock atomicity), user Hash/Eq consistent, states with the same key have the same number of dimensions (axiom), Arc::as_ref / saturating_sub specs. NOT decided: "enabling the checker never changes the solver optimum" (whole-compile fact behind the assumed DecisionDiagram contract).',
+        'not_decided': ['solver-level clause: enabling the dominance checker never changes the optimal value (needs whole-compile semantics)',
+                        '_filter_with_dominance use of sort_unstable_by (mdd unit)'],
+        'assumptions': ['same key => same nb_dimensions (DominanceView::lemma_same_key_same_dims, bodiless axiom)'],
+    },
+    'C18': {
+        'units': ['cache_api', 'dominance_checker'],
+        'dep_units': [],
+        'kani': [],
+        'technique': 'Verus: SimpleCache / EmptyCache / SimpleDominanceChecker real methods against ghost map models; history lemmas for arbitrary operation sequences',
+        'level_text': 'Deductive proof (Verus) of the SEQUENTIAL clause for all operation histories: SimpleCache against Seq<Map<State, Threshold>>: get_threshold returns the stored entry, update_threshold stores the lexicographic maximum in (value, explored) order and touches no other key/layer, clear_layer empties exactly one layer, clear all (lemma_history: the answer is the maximum of the records since the layer was last cleared); dominance store answers as the Pareto front of everything recorded (lemma_front_history).',
+        'level_note': 'The CONCURRENCY clause (linearisability under shard locks) is NOT decided: DashMap is a trusted stand-in whose entry API is assumed atomic per key; Kani has no threads and ICEs on DashMap, Verus cannot see DashMap unsafe code. Trusted: derived Ord of Threshold is lexicographic (OrdSpecImpl), R14 (&self -> &mut self for interior mutability).',
+        'not_decided': ['concurrent clause: outcome equals some sequential ordering (atomicity of DashMap entry API is assumed)'],
+        'assumptions': ['DashMap: entry().and_modify().or_insert() is one atomic read-modify-write per key; dominance arm runs under one shard lock'],
+    },
+    'C09': {
+        'units': ['cache_api', 'seq_solver'],
+        'dep_units': [],
+        'kani': [],
+        'technique': 'Verus: must_explore rule, threshold store semantics, clear_layer rule of the solvers (leaf mechanisms of the cache); the global no-change theorem is NOT decided',
+        'level_text': 'PARTIAL. Deductive proof (Verus) of the mechanisms named in the anchors that are within reach of function contracts: Cache::must_explore (real default method) <==> no threshold || value > theta.value || (value == theta.value && !theta.explored); SimpleCache::update_threshold keeps the lexicographic max (a stored threshold never decreases); EmptyCache never vetoes; the solvers clear cache layer d only when no open (parallel: nor in-flight) node exists at any depth <= d.',
+        'level_note': 'NOT decided: the global theorem that pruning with thresholds written by earlier compilations never discards the last route to a better solution, and the theta formulas of _compute_thresholds as a relation to the value-to-go (whole-compile semantics: see DESIGN.md section 7). C01/C03 theorems are claimed for non-caching solvers only.',
+        'not_decided': ['global theorem: caching solvers return the same optimum as non-caching ones', '_compute_thresholds / _filter_with_cache / _maybe_update_cache (mdd units)'],
+        'assumptions': [],
+    },
+    'C11': {
+        'units': ['nodup_fringe', 'simple_fringe', 'ranking'],
+        'dep_units': [],
+        'kani': [],
+        'technique': 'Verus: representation invariant + abstract view of NoDupFringe (real text of all 17 functions) proved against the Fringe trait contract; MaxUB::compare proved lexicographic',
+        'level_text': 'Deductive proof (Verus, all operation sequences by induction over the representation invariant wf): heap ids/pos inverse, recycle bin = dead ids, states maps exactly the live (state, depth) keys, max-heap order. push/pop/clear/len/is_empty of the real NoDupFringe meet the Fringe contract of inc_dp.vinc: pop returns a maximum of the ranking (ub first), len == number of poppable items, nothing lost or invented, coalescing only for same state AND same depth with larger value + own path + max ub. bubble_up/bubble_down terminate (decreases). MaxUB::compare is the lexicographic (ub, value, state ranking) order. SimpleFringe: delegation proved, BinaryHeap assumed.',
+        'level_note': 'Trusted: user StateRanking is a total preorder (axioms), Hash/Eq of the user state consistent (obeys_key_model), Vec length <= isize::MAX/2 (allocation limit), derived Clone of SubProblem, binary_heap_plus::BinaryHeap max-heap contract (stand-in), Ordering == spec.',
+        'not_decided': ['SimpleFringe: the heap order of binary_heap_plus is assumed, not proved'],
+        'assumptions': ['FxHashMap replaced by std HashMap in the model (R13: the hasher is irrelevant to map semantics)', 'then_with rewritten to its documented match form (R12)'],
     },
     'C13': {
         'units': ['width'],
@@ -91,5 +144,5 @@ NOT_APPLICABLE = {
     'C16': 'twelve whole example programs (parsers, clap, f64 bounds, per-problem admissibility theories): outside the reach of function contracts here; see DESIGN.md section 5',
     'C20': 'property about the syntax of a format!/Debug-built string: Verus has no str reasoning and Kani stubs format!; see DESIGN.md section 5',
 }
-for _p in ['C03','C04','C06','C07','C08','C09','C10','C11','C12','C15','C18']:
+for _p in ['C03','C04','C06','C07','C08','C12','C15']:
     NOT_APPLICABLE.setdefault(_p, 'not built yet (deciding unit under construction; see DESIGN.md section 10)')
